@@ -296,7 +296,7 @@ psutil_convert_ipaddr(struct sockaddr *addr, int family) {
  */
 static PyObject*
 psutil_net_if_addrs(PyObject* self, PyObject* args) {
-    struct ifaddrs *ifaddr, *ifa;
+    struct ifaddrs *ifaddr = NULL, *ifa;
     int family;
 
     PyObject *py_retlist = PyList_New(0);
